@@ -49,7 +49,11 @@ fn new_tr<'a>(idx: &'a Index, reg: &'a Registry, cur: &'a FnEntry) -> Tr<'a> {
         generics: Vec::new(),
         const_generics: Vec::new(),
         uses_fuel: false,
-        used_adts: Vec::new(),
+        fuel_uses: 0,
+        hoisted: Vec::new(),
+        loop_count: 0,
+        lean_name: String::new(),
+        betas: Vec::new(),
     }
 }
 
@@ -177,6 +181,7 @@ fn translate_fn(idx: &Index, reg: &Registry, t: &Target, texts: &BTreeMap<String
         syn::ReturnType::Type(_, t) => tr.conv_ty(t),
     };
     tr.ret_ty = ret.clone();
+    tr.lean_name = t.lean_name.clone();
     let (body, _ty, _div) = tr.block_lines(&f.block.stmts, &[], true, Some(&ret))?;
 
     let mut sig = String::new();
@@ -202,6 +207,12 @@ fn translate_fn(idx: &Index, reg: &Registry, t: &Target, texts: &BTreeMap<String
     writeln!(out, "/-- Rust `{}`:\n```rust", f.path).unwrap();
     out.push_str(&quote_source(texts, &krate, start, end));
     writeln!(out, "``` -/").unwrap();
+    let head = std::mem::take(&mut out);
+    for h in &tr.hoisted {
+        out.push_str(h);
+        out.push('\n');
+    }
+    out.push_str(&head);
     writeln!(out, "def {}{} : Res {} := Ctl.run (ρ := {}) do", t.lean_name, sig, ret_l, ret_l).unwrap();
     for l in ind(body, 2) {
         out.push_str(&l);
